@@ -66,10 +66,24 @@ ProofVerdict(e) ==
        ELSE IF x.matches # leaves THEN V("extracted-hashes", Cut(Brief32(leaves)), Cut(Brief32(x.matches)))
        ELSE OK >>)
 
+\* growth: the same object asked twice
+TwiceVerdict(e) ==
+  LET v1 == ExtractVerdict(e) IN
+  IF v1 # OK THEN v1
+  ELSE LET n == e.ntx[1] * 65536 + e.ntx[2]
+           M == [n |-> n, hashes |-> e.hashes, bits |-> UnpackFlags(e.flags)]
+           x2 == SecondExtract(M, [ok |-> e.ok])
+       IN IF ~x2.defined THEN OK
+          ELSE IF e.second.ok # x2.ok THEN V("second-extraction-result", x2.ok, e.second.ok)
+          ELSE IF e.second.bad # x2.bad THEN V("second-extraction-bad-flag", x2.bad, e.second.bad)
+          ELSE IF e.second.matches # e.matches \/ e.second.items # e.items THEN V("second-extraction-changed-matches", Len(e.matches), Len(e.second.matches))
+          ELSE OK
+
 VerdictPM(p, e, s) ==
   IF "panic" \in DOMAIN e THEN V("panic", e.op, e.panic)
   ELSE CASE e.op = "ExtractMsg" -> ExtractVerdict(e)
          [] e.op = "Proof" -> ProofVerdict(e)
+         [] e.op = "ExtractTwice" -> TwiceVerdict(e)
          [] OTHER -> V("unknown-op", e.op, e.op)
 
 InitPM == TInit(0)
